@@ -11,10 +11,13 @@ def claimed_targets():
     work-in-progress file of an unclaimed property cannot break setup."""
     import json
     targets, drivers = [], []
+    ready = set(json.load(open(os.path.join(common.VERIF, "manifest.d", "_ready.json"))))
     for f in sorted(glob.glob(os.path.join(common.VERIF, "manifest.d", "C*.json"))):
         c = json.load(open(f))
         b = c.get("_build", {})
         pid = c["property_id"]
+        if pid not in ready:
+            continue
         targets += [t + "o" for t in b.get("targets", [f"Props/{pid}.v"])]
         for d in b.get("drivers", [f"Ex{pid}"]):
             drivers.append((d[2:] if d.startswith("Ex") else d, d))
